@@ -2107,9 +2107,9 @@ def gen_size(chk, rng):
 def _weight(case):
     """rough cost of a case's model term (the size cases are dealt evenly over the shards of the Coq evaluation)"""
     s = case.get("size")
-    if not s:
+    if not s or case.get("python_only"):
         return 0
-    return s["n"] ** (3 if s["extent"] == "return.horizon" and not case.get("python_only") else 1)
+    return s["n"] ** (3 if s["extent"] == "return.horizon" else 1)
 
 
 def spread_order(cases, shard):
